@@ -270,6 +270,12 @@ func runC02(tier, replay string) int {
 	for i, t := range sessionExtraSources {
 		srcs = append(srcs, &c02Src{Family: "extra", Name: fmt.Sprintf("extra%d", i), Text: t})
 	}
+	{
+		sn, st := c02Shapes()
+		for i := range sn {
+			srcs = append(srcs, &c02Src{Family: "shape", Name: sn[i], Text: st[i]})
+		}
+	}
 	only := os.Getenv("VERIF_C02_ONLY") // development aid: restrict to some families ("corpus,gen,...")
 	want := func(fam string) bool { return only == "" || strings.Contains(only, fam) }
 	if want("sem") {
@@ -322,6 +328,9 @@ func runC02(tier, replay string) int {
 	frontFail := map[string]int{}
 	var ok []*c02Src
 	for _, s := range srcs {
+		if s.m == nil && s.Family == "shape" {
+			c.BrokenF("hand-shaped program %s is rejected by the front end: %s", s.Name, s.frontErr)
+		}
 		if s.m == nil {
 			frontFail[s.Family]++
 			if s.Family == "gen" && os.Getenv("VERIF_C02_DEBUG") != "" {
@@ -347,8 +356,20 @@ func runC02(tier, replay string) int {
 		perm := rng.Perm(len(ok))
 		pick := map[string]int{}
 		quota := map[string]int{"corpus": 22, "extra": 2, "ctl": 5, "sem": 6, "gen": 8}
+		// the hand-shaped programs are judged on every seed, at the versions on both sides of the 1.4 interface rule
+		shapeOpts := c02OptSets([]uint8{3, 4, 6}, c02Flavours[:1])
+		for _, s := range ok {
+			if s.Family == "shape" {
+				for _, o := range shapeOpts {
+					pairs = append(pairs, pair{s, o})
+				}
+			}
+		}
 		for _, pi := range perm {
 			s := ok[pi]
+			if s.Family == "shape" {
+				continue
+			}
 			fam := s.Family
 			if strings.HasPrefix(fam, "sem:") {
 				fam = "sem"
@@ -369,6 +390,10 @@ func runC02(tier, replay string) int {
 		some := c02OptSets([]uint8{0, 3, 4, 6}, []c02Opt{c02Flavours[0], c02Flavours[7]})
 		for _, s := range ok {
 			switch {
+			case s.Family == "shape":
+				for _, o := range c02OptSets(allMinors, []c02Opt{c02Flavours[0], c02Flavours[1], c02Flavours[7]}) {
+					pairs = append(pairs, pair{s, o})
+				}
 			case s.Family == "corpus" || s.Family == "extra":
 				for _, o := range full {
 					pairs = append(pairs, pair{s, o})
